@@ -114,6 +114,7 @@ func (r *schemaLoader) updateBasePath(transitive *schemaLoader, basePath string)
 }
 
 func (r *schemaLoader) resolveRef(ref *Ref, target interface{}, basePath string) error {
+	verifStep()
 	tgt := reflect.ValueOf(target)
 	if tgt.Kind() != reflect.Ptr {
 		return ErrResolveRefNeedsAPointer
@@ -216,6 +217,7 @@ func (r *schemaLoader) Resolve(ref *Ref, target interface{}, basePath string) er
 }
 
 func (r *schemaLoader) deref(input interface{}, parentRefs []string, basePath string) error {
+	verifStep()
 	var ref *Ref
 	switch refable := input.(type) {
 	case *Schema:
